@@ -39,7 +39,13 @@ func c04Schema() (*model.Schema, []*model.TypeRef) {
 		{Name: "f64", Type: model.Named("Float64")},
 		{Name: "nnd", Type: model.NonNullOf(model.Named("Int")), HasDefault: true, Default: int64(5)},
 	}})
-	bases := []string{"Int", "Float", "String", "Boolean", "ID", "Int64", "Float64", "E", "In", "In2", "Custom", "Time"}
+	// an input whose fields default to OBJECTS / LISTS OF OBJECTS that leave a field of the nested type to that type's own default
+	s.Types = append(s.Types, &model.TypeDef{Kind: model.Input, Name: "In3", Inputs: []*model.ArgDef{
+		{Name: "page", Type: model.Named("In2"), HasDefault: true, Default: model.NewObjLit().Set("x", 1.5)},
+		{Name: "pages", Type: model.ListOf(model.NonNullOf(model.Named("In2"))), HasDefault: true, Default: []interface{}{model.NewObjLit().Set("x", 2.5).Set("z", "id")}},
+		{Name: "n", Type: model.Named("Int")},
+	}})
+	bases := []string{"Int", "Float", "String", "Boolean", "ID", "Int64", "Float64", "E", "In", "In2", "Custom", "Time", "In3"}
 	var types []*model.TypeRef
 	for _, b := range bases {
 		n := func() *model.TypeRef { return model.Named(b) }
@@ -78,6 +84,7 @@ func c04Pool() []interface{} {
 		obj("x", 2.5), obj("x", 1e300), obj("x", int64(1), "z", int64(12)), obj("x", 1.5, "y", []interface{}{model.Sym("C"), nil}), obj("req", int64(3), "f64", 1e300),
 		obj("req", int64(1), "nnd", nil), obj("req", int64(1), "nnd", int64(9)), obj("req", int64(1), "nnd", "x"), []interface{}{obj("req", int64(2), "nnd", nil)},
 		obj("req", 3.0), obj("req", 3.5), obj("req", "3"), []interface{}{obj("req", int64(1)), obj()}, []interface{}{obj("x", 0.5)},
+		obj("n", int64(4)), obj("page", obj("x", 0.25)), obj("pages", []interface{}{obj("x", 1.0)}), obj("page", nil), []interface{}{obj(), obj("n", int64(1))},
 	}
 }
 
@@ -327,6 +334,7 @@ func runC04(c *run.Ctx) {
 	g.Root = root
 	g.Nodes = []*model.Node{root, q}
 	nullvar := c.Open("K-C04-nullvar")
+	nestedDef := c.Open("K-C04-nested-default")
 	forms := []string{"literal", "var-json", "var-native", "var-default", "nested", "var-over-default", "var-null-with-default", "var-unset"}
 	total := 0
 	perType := c.N(14, len(pool)+30)
@@ -512,6 +520,14 @@ func runC04(c *run.Ctx) {
 					c.Count("resolver_invocations_checked", 1)
 					got, has := call.Raw["a"]
 					if d := c04Conforms(s, t, got, "a"); d != "" && (has || t.NonNull) {
+						if nestedDef && strings.Contains(d, "default of") {
+							// defect model: the received value equals the coercion in which object/list defaults are taken as written
+							shVal, shErr := c04ShallowModel(s, t, form, raw, vars, argVal, op.Vars)
+							if shErr == nil && ref.Equal(c04Canon(got), shVal) {
+								c.Known("K-C04-nested-default", map[string]interface{}{"type": t.String(), "document": text, "received": ref.Render(c04Canon(got)), "expected": ref.Render(expVal)})
+								continue
+							}
+						}
 						rep("received argument does not conform: " + d)
 						continue
 					}
@@ -718,6 +734,59 @@ func c04Histories(c *run.Ctx, s *model.Schema, sdl string, g *model.Graph, types
 	c.Set("histories_parse_once", n)
 	c.Count("history_resolve_calls", steps)
 	return n
+}
+
+// c04ShallowModel is the prediction of K-C04-nested-default for one request: literal parts (and variable defaults) are
+// coerced once with object/list defaults taken as written; a supplied variable value is coerced by its declared type first
+// and once more when the argument is assembled, which fills one further level.
+func c04ShallowModel(s *model.Schema, t *model.TypeRef, form string, raw interface{}, vars map[string]interface{}, argVal interface{}, vdefs []*model.VarDef) (interface{}, error) {
+	ref.ShallowDefaults = true
+	defer func() { ref.ShallowDefaults = false }()
+	var firstErr error
+	var subst func(v interface{}) interface{}
+	subst = func(v interface{}) interface{} {
+		switch tv := v.(type) {
+		case model.VarRef:
+			if form == "var-default" {
+				return raw
+			}
+			for _, vd := range vdefs {
+				if vd.Name == string(tv) {
+					val, supplied := vars[vd.Name]
+					if !supplied {
+						if vd.HasDefault {
+							return vd.Default
+						}
+						return nil
+					}
+					cv, err := ref.CoerceIn(s, vd.Type, val)
+					if err != nil && firstErr == nil {
+						firstErr = err
+					}
+					return ref.Coerced{V: cv}
+				}
+			}
+			return nil
+		case []interface{}:
+			o := make([]interface{}, len(tv))
+			for i, e := range tv {
+				o[i] = subst(e)
+			}
+			return o
+		case *model.ObjLit:
+			o := model.NewObjLit()
+			for _, k := range tv.Keys {
+				o.Set(k, subst(tv.Vals[k]))
+			}
+			return o
+		}
+		return v
+	}
+	sv := subst(argVal)
+	if firstErr != nil {
+		return nil, firstErr
+	}
+	return ref.CoerceIn(s, t, sv)
 }
 
 // c04Lenient recomputes the expectation with ref.Lenient on, from the request itself
